@@ -331,6 +331,7 @@ type C15StatCase struct {
 	Seed0    int64   `json:"seed0"`
 	N        int     `json:"n"`
 	Vals     float64 `json:"val"`
+	Mode     int     `json:"mode"` // 0: importances 1,4,16,..; 1: 0,1,2,.. (a criterion of importance exactly 0); 2: -1,0,1,..
 }
 
 func judgeC15Stat(c C15StatCase) *Fail {
@@ -340,14 +341,20 @@ func judgeC15Stat(c C15StatCase) *Fail {
 	var crits []interface{}
 	vals := M{}
 	for i, id := range ids {
-		w[id] = math.Pow(4, float64(i)) // 1, 4, 16, 64: weakest is c1, strongest the last
+		wi := math.Pow(4, float64(i)) // 1, 4, 16, 64: weakest is c1, strongest the last
+		if c.Mode == 1 {
+			wi = float64(i)
+		} else if c.Mode == 2 {
+			wi = float64(i) - 1
+		}
+		w[id] = wi
 		ec[id] = M{"k": math.Pow(4, float64(i))}
 		crits = append(crits, M{"id": id, "type": "gain"})
 		vals[id] = c.Vals
 	}
 	mp := M{"weights": w}
 	if c.Method == "electreIII" {
-		mp = M{"electreCriteria": ec}
+		mp = M{"electreCriteria": ec} // k must be positive: always the 1,4,16 importances
 	}
 	if c.Method == "aspectEliminationHeuristic" {
 		mp["function"] = "idealAdditiveCoefficient"
@@ -380,11 +387,11 @@ func judgeC15Stat(c C15StatCase) *Fail {
 	switch c.Ordering {
 	case "weakestByProbability":
 		if float64(weak-strong) < margin {
-			return failf("weakest-by-probability-prefers-weak", "%s, %d criteria with importances 1:4:..: least important omitted first %d times, most important %d times over %d seeds", c.Method, c.NCrit, weak, strong, c.N)
+			return failf("weakest-by-probability-prefers-weak", "%s, %d criteria with ascending importances (mode %d): least important omitted first %d times, most important %d times over %d seeds", c.Method, c.NCrit, c.Mode, weak, strong, c.N)
 		}
 	case "strongestByProbability":
 		if float64(strong-weak) < margin {
-			return failf("strongest-by-probability-prefers-strong", "%s, %d criteria with importances 1:4:..: most important omitted first %d times, least important %d times over %d seeds", c.Method, c.NCrit, strong, weak, c.N)
+			return failf("strongest-by-probability-prefers-strong", "%s, %d criteria with ascending importances (mode %d): most important omitted first %d times, least important %d times over %d seeds", c.Method, c.NCrit, c.Mode, strong, weak, c.N)
 		}
 	case "random":
 		// only "a permutation of the criteria" is claimed (checked per case by the relation check)
@@ -401,6 +408,7 @@ func genC15Stat(t *rapid.T) C15StatCase {
 		Method:   g.Pick("majorityHeuristic", "aspectEliminationHeuristic", "electreIII"),
 		Ordering: g.Pick("weakestByProbability", "strongestByProbability", "random"),
 		NCrit:    g.Int(2, 4), Seed0: int64(g.Int(0, 1<<40)), N: 2000, Vals: float64(g.Int(1, 5)),
+		Mode: g.Int(0, 2),
 	}
 }
 
